@@ -191,6 +191,16 @@ def check(model: Model, run: Run) -> None:
     run.rule('C13.R5', 'one record per event: no literal newline inside a JSON template; every text event template ends with exactly one newline per line of its shape; the JSON envelope carries exabgp,time,host,pid,ppid,counter,type', floor=30)
     _r5_lines(model, run)
 
+    # ------------------------------------------------------------------ R8 members go in objects, values in lists
+    run.rule(
+        'C13.R8',
+        'a JSON list is filled with values and an object with members: the json() of a route class returns one kind of fragment '
+        '({...} value, or "key": ... member), and the update encoders put into a [ ... ] list only routes whose json() is a value - '
+        'the End-of-RIB pseudo route renders as the member "eor": {...}, which inside a list is not JSON',
+        floor=20,
+    )
+    _r8_fragment_kinds(model, run)
+
     # ------------------------------------------------------------------ R6 every event kind has an emitter
     run.rule('C13.R6', 'every message kind a peer can trigger has an emitter: each registered message type has a @register_process entry and each encoder class defines every method Processes calls on it', floor=20)
     _r6_emitters(model, run, folder)
@@ -370,3 +380,128 @@ def _r6_emitters(model: Model, run: Run, folder: Folder) -> None:
         ci = cis[0]
         for meth in sorted(called):
             run.check(model.effective(ci.qualname, meth) is not None, ci.qualname, 'defines %s()' % meth, ci.loc(), 'Processes calls encoder.%s(): a missing method is an AttributeError for an event a peer can trigger' % meth)
+
+
+# ---------------------------------------------------------------------------------------------- R8
+def _first_literal(e: ast.AST) -> str | None:
+    """first characters of the string an expression evaluates to, when they are literal"""
+    if isinstance(e, ast.Constant) and isinstance(e.value, str):
+        return e.value.lstrip() or None
+    if isinstance(e, ast.JoinedStr) and e.values:
+        return _first_literal(e.values[0]) if isinstance(e.values[0], ast.Constant) else None
+    if isinstance(e, ast.BinOp) and isinstance(e.op, (ast.Add, ast.Mod)):
+        return _first_literal(e.left)
+    if isinstance(e, ast.Call) and isinstance(e.func, ast.Attribute) and e.func.attr == 'format':
+        return _first_literal(e.func.value)
+    return None
+
+
+def _last_literal(e: ast.AST) -> str | None:
+    if isinstance(e, ast.Constant) and isinstance(e.value, str):
+        return e.value.rstrip()[-1:] or None
+    if isinstance(e, ast.JoinedStr) and e.values:
+        return _last_literal(e.values[-1]) if isinstance(e.values[-1], ast.Constant) else None
+    if isinstance(e, ast.BinOp) and isinstance(e.op, ast.Add):
+        return _last_literal(e.right)
+    return None
+
+
+def _r8_fragment_kinds(model: Model, run: Run) -> None:
+    from ..flow import flat_guards, parent_map
+    from ..labels import LabelFlow
+
+    NLRI_BASE = 'exabgp.bgp.message.update.nlri.nlri.NLRI'
+    members: set[str] = set()
+    n = 0
+    for qn in sorted(model.all_subclasses(NLRI_BASE)):
+        ci = model.classes.get(qn)
+        if ci is None or 'json' not in ci.methods:
+            continue
+        f = ci.methods['json']
+        kinds = set()
+        for r in walk_no_nested(f.node):
+            if isinstance(r, ast.Return) and r.value is not None:
+                v = Loc(model, f).resolve(r.value)
+                lit = _first_literal(v if v is not None else r.value)
+                if lit is None:
+                    kinds.add('?')
+                elif lit[0] in '{[':
+                    kinds.add('value')
+                elif lit[0] == '"':
+                    import re
+
+                    kinds.add('member' if re.match(r'"[^"]*"\s*:', lit) else 'value')
+                else:
+                    kinds.add('?')
+        kinds.discard('?')
+        if not kinds:
+            continue
+        n += 1
+        run.analysed(f)
+        run.check(len(kinds) == 1, f.qualname, 'json() returns one kind of fragment (%s)' % sorted(kinds), f.loc(), 'a method that returns sometimes an object and sometimes a "key": value member cannot be placed correctly by its callers')
+        if kinds == {'member'}:
+            members.add(qn)
+    run.extra['member_fragment_classes'] = sorted(short(m) for m in members)
+    # the encoders: where do route fragments go?
+    encs = [f for f in model.funcs.values() if f.module.rel.startswith('exabgp/reactor/api/response/') and f.module.rel.endswith('json.py') and f.name == '_update']
+    if not encs:
+        run.cannot('JSON._update not found')
+    for f in encs:
+        run.analysed(f)
+        pm = parent_map(f.node)
+
+        def seed(e: ast.AST, f=f, pm=pm) -> tuple[str, ...]:  # noqa: ANN001
+            # the routes of an End-of-RIB: what is read from <message>.nlris where the message is known to be one
+            if isinstance(e, ast.Attribute) and e.attr == 'nlris' and any('IS_EOR' in norm(t) and pol for t, pol in flat_guards(f.node, e, pm)):
+                return ('EOR',)
+            return ()
+
+        lf = LabelFlow(f.node, seed)
+        joins = []
+        for st in walk_no_nested(f.node):
+            if isinstance(st, (ast.Assign, ast.AugAssign)):
+                tg = st.targets[0] if isinstance(st, ast.Assign) else st.target
+                if not isinstance(tg, ast.Name):
+                    continue
+                for c in ast.walk(st.value):
+                    if isinstance(c, ast.Call) and isinstance(c.func, ast.Attribute) and c.func.attr == 'join' and c.args and isinstance(c.args[0], (ast.GeneratorExp, ast.ListComp)):
+                        elt = c.args[0].elt
+                        if isinstance(elt, ast.Call) and ('json' in norm(elt.func)):
+                            joins.append((st, tg.id, c))
+        for st, acc, c in joins:
+            # which bracket was opened last on the same accumulator?
+            from ..flow import block_of
+
+            blk = block_of(pm, st)
+            opened = None
+            if blk is not None:
+                for prev in blk[2]:
+                    if prev is st:
+                        break
+                    if isinstance(prev, (ast.Assign, ast.AugAssign)):
+                        ptg = prev.targets[0] if isinstance(prev, ast.Assign) else prev.target
+                        if isinstance(ptg, ast.Name) and ptg.id == acc:
+                            ll = _last_literal(prev.value)
+                            if ll in ('[', '{'):
+                                opened = ll
+            lead = _last_literal(st.value.left) if isinstance(st.value, ast.BinOp) else None
+            if lead in ('[', '{'):
+                opened = lead
+            if opened is None:
+                continue
+            n += 1
+            labs = lf.of(c.args[0].generators[0].iter)
+            inst = '%s: %s-context list of route fragments' % (short(f.qualname), opened)
+            if opened == '[' and 'EOR' in labs and members:
+                run.violation(
+                    f.qualname,
+                    'the End-of-RIB route is rendered inside a [ ... ] list: %s' % norm(c)[:60],
+                    f.loc(st),
+                    'json() of %s returns the member "eor": {...}; this list is built from routes that include the End-of-RIB marker, so '
+                    'the event reads { "update": { "announce": { "ipv4 unicast": { "null": [ "eor": {...} ] } } } }, which no JSON parser accepts'
+                    % ', '.join(sorted(short(m) for m in members)),
+                )
+            else:
+                run.ok(inst, 'elements: %s' % (sorted(labs) or 'announced / withdrawn routes'))
+    if n < 20:
+        run.cannot('only %d fragment kinds / list contexts examined' % n)
